@@ -13,6 +13,7 @@ import Restful.Model.Serve
 import Restful.Model.Conc
 import Restful.Gen.Facts
 import Restful.Lemmas.Panic
+import Restful.Lemmas.StateShape
 namespace Restful
 namespace Props
 open Gen Conc
@@ -56,6 +57,17 @@ theorem C19_dispatch_defers :
       | _ => false) =
       [.deferCall "closeCompressor", .deferCall "recover", .acq 0 .R, .deferRel 0 .R] := by
   decide +kernel
+
+/-! The frame condition (Lemmas/StateShape.lean): the code has exactly the state this property's model
+    accounts for — no further package-level variable, struct type or field; constants as modelled. -/
+-- also: Restful.StateShape.globals_shape
+-- also: Restful.StateShape.consts_shape
+-- also: Restful.StateShape.container_shape
+-- also: Restful.StateShape.response_shape
+-- also: Restful.StateShape.cors_shape
+-- also: Restful.StateShape.compress_shape
+-- also: Restful.StateShape.entity_shape
+-- also: Restful.StateShape.state_shape
 
 end Props
 end Restful
